@@ -76,6 +76,21 @@ func (e *eventV2) EventID() string {
 	return ref.EventID
 }
 
+// populateEventID computes the event ID once, while the event is still private
+// to the goroutine that parses it, so that EventID() is a pure read afterwards
+// and may be called from several goroutines at once.
+func (e *eventV2) populateEventID(verImpl IRoomVersion) error {
+	if e.EventIDRaw != "" {
+		return nil
+	}
+	ref, err := referenceOfEventForVersion(e.eventJSON, verImpl)
+	if err != nil {
+		return fmt.Errorf("failed to generate reference of event: %w", err)
+	}
+	e.EventIDRaw = ref.EventID
+	return nil
+}
+
 func (e *eventV2) Redact() {
 	if e.redacted {
 		return
@@ -101,6 +116,8 @@ func (e *eventV2) Redact() {
 	res.redacted = true
 	res.eventJSON = eventJSON
 	res.roomVersion = e.roomVersion
+	// the event ID is a function of the redacted event: it does not change
+	res.EventIDRaw = e.EventID()
 	*e = res
 }
 
@@ -182,6 +199,10 @@ func newEventFromUntrustedJSONV2(eventJSON []byte, roomVersion IRoomVersion) (PD
 			err = CheckFields(result)
 			return result, err
 		}
+	}
+
+	if err = res.populateEventID(roomVersion); err != nil {
+		return nil, err
 	}
 
 	err = CheckFields(res)
@@ -281,6 +302,9 @@ func newEventFromTrustedJSONV2(eventJSON []byte, redacted bool, roomVersion IRoo
 	res.roomVersion = roomVersion.Version()
 	res.redacted = redacted
 	res.eventJSON = eventJSON
+	if err := res.populateEventID(roomVersion); err != nil {
+		return nil, err
+	}
 	return &res, nil
 }
 
